@@ -2,7 +2,9 @@ package dastard
 
 import (
 	"bytes"
+	"errors"
 	"fmt"
+	"io"
 	"time"
 
 	"github.com/usnistgov/dastard/getbytes"
@@ -238,7 +240,13 @@ func (dp *DataPublisher) PublishData(records []*DataRecord) error {
 		}
 		for _, record := range records {
 			nano := record.trigTime.UnixNano()
-			dp.LJH22.WriteRecord(int64(record.trigFrame), int64(nano)/1000, rawTypeToUint16(record.data))
+			err := dp.LJH22.WriteRecord(int64(record.trigFrame), int64(nano)/1000, rawTypeToUint16(record.data))
+			// A record of another length than the file's is not stored in this fixed-length format.
+			// A full writer queue is reported, as for OFF below: a record that was not stored must
+			// not pass for a published one.
+			if errors.Is(err, io.ErrShortWrite) {
+				return err
+			}
 		}
 	}
 	if dp.HasLJH3() {
@@ -251,7 +259,9 @@ func (dp *DataPublisher) PublishData(records []*DataRecord) error {
 		}
 		for _, record := range records {
 			nano := record.trigTime.UnixNano()
-			dp.LJH3.WriteRecord(int32(record.presamples+1), int64(record.trigFrame), int64(nano)/1000, rawTypeToUint16(record.data))
+			if err := dp.LJH3.WriteRecord(int32(record.presamples+1), int64(record.trigFrame), int64(nano)/1000, rawTypeToUint16(record.data)); err != nil {
+				return err
+			}
 		}
 	}
 	if dp.HasOFF() {
